@@ -304,33 +304,59 @@ func (r *Run) runCase(w *worker, s *Sub, i int, replay bool) (failed, inconcl bo
 	return c.failed, c.inconcl, c.evals
 }
 
+// Flags are registered at package initialisation so that a monitor can also
+// live in a test binary (needed for testing/synctest, which wants a *testing.T).
+var (
+	flagTier    = flag.String("tier", envOr("VERIF_TIER", "quick"), "quick|thorough")
+	flagSeed    = flag.Int64("seed", envInt("VERIF_SEED", 1), "seed")
+	flagReplay  = flag.String("replay", "", "replay file")
+	flagOnly    = flag.String("only", "", "sub:index — run a single case")
+	flagChild   = flag.Bool("child", false, "internal")
+	flagRound   = flag.Int("round", 0, "internal")
+	flagWorkers = flag.Int("workers", runtime.NumCPU(), "workers")
+	flagVerbose = flag.Bool("v", false, "verbose")
+)
+
+// childPrefixArgs are put in front of the arguments of every child process
+// (a test binary needs -test.run=...).
+var childPrefixArgs []string
+
+// T is the *testing.T of the enclosing test when the monitor runs inside a
+// test binary (nil otherwise); stored as interface{} to keep package testing
+// out of ordinary monitors.
+var T interface{}
+
 // Main is the entry point of every monitor binary.
 func Main(spec *Spec) {
-	var (
-		tier    = flag.String("tier", envOr("VERIF_TIER", "quick"), "quick|thorough")
-		seed    = flag.Int64("seed", envInt("VERIF_SEED", 1), "seed")
-		replay  = flag.String("replay", "", "replay file")
-		only    = flag.String("only", "", "sub:index — run a single case")
-		child   = flag.Bool("child", false, "internal")
-		round   = flag.Int("round", 0, "internal")
-		workers = flag.Int("workers", runtime.NumCPU(), "workers")
-		verbose = flag.Bool("v", false, "verbose")
-	)
 	flag.Parse()
+	os.Exit(run(spec))
+}
+
+// MainInTest is Main for a monitor living in a test binary: call it from the
+// single test function; prefix are the -test.* arguments children must get.
+func MainInTest(spec *Spec, t interface{}, prefix []string) {
+	T = t
+	childPrefixArgs = prefix
+	os.Exit(run(spec))
+}
+
+func run(spec *Spec) int {
+	tier, seed, replay, only := flagTier, flagSeed, flagReplay, flagOnly
+	child, round, workers, verbose := flagChild, flagRound, flagWorkers, flagVerbose
 	if *tier != "quick" && *tier != "thorough" {
 		fmt.Fprintln(os.Stderr, "bad tier")
-		os.Exit(3)
+		return 3
 	}
 	if *replay != "" {
 		b, err := os.ReadFile(*replay)
 		if err != nil {
 			fmt.Fprintln(os.Stderr, err)
-			os.Exit(3)
+			return 3
 		}
 		var v violation
 		if err := json.Unmarshal(b, &v); err != nil {
 			fmt.Fprintln(os.Stderr, err)
-			os.Exit(3)
+			return 3
 		}
 		*only = v.Sub + ":" + strconv.Itoa(v.Index)
 		*seed = v.Seed
@@ -339,9 +365,9 @@ func Main(spec *Spec) {
 		}
 	}
 	if *child || *only != "" {
-		os.Exit(childMain(spec, *tier, *seed, *only, *workers, *round, *verbose || *replay != ""))
+		return childMain(spec, *tier, *seed, *only, *workers, *round, *verbose || *replay != "")
 	}
-	os.Exit(supervise(spec, *tier, *seed, *workers))
+	return supervise(spec, *tier, *seed, *workers)
 }
 
 func envOr(k, d string) string {
@@ -598,7 +624,7 @@ func supervise(spec *Spec, tier string, seed int64, workers int) int {
 		if round == 0 {
 			args[4] = strconv.FormatInt(seed, 10)
 		}
-		cmd := exec.Command(exe, args...)
+		cmd := exec.Command(exe, append(append([]string(nil), childPrefixArgs...), args...)...)
 		lf, _ := os.Create(logPath)
 		cmd.Stdout = lf
 		cmd.Stderr = lf
@@ -692,7 +718,7 @@ func supervise(spec *Spec, tier string, seed int64, workers int) int {
 			go func(ci int, cs inflight) {
 				defer iwg.Done()
 				ilog := filepath.Join(wd, fmt.Sprintf("%s.isolate.%d.log", spec.Property, ci))
-				ic := exec.Command(exe, "-child", "-tier", tier, "-seed", args[4], "-only", cs.sub+":"+strconv.Itoa(cs.idx))
+				ic := exec.Command(exe, append(append([]string(nil), childPrefixArgs...), "-child", "-tier", tier, "-seed", args[4], "-only", cs.sub+":"+strconv.Itoa(cs.idx))...)
 				f, _ := os.Create(ilog)
 				ic.Stdout, ic.Stderr = f, f
 				ic.Env = os.Environ()
